@@ -122,6 +122,7 @@ type Ctx struct {
 	vars   []*Term
 	funcs  map[string]string // uninterpreted function name -> declaration
 	funcsO []string
+	hashes map[int][2]uint64
 	True   *Term
 	False  *Term
 }
@@ -593,6 +594,41 @@ func (c *Ctx) BitsToF(a *Term) *Term {
 		return c.mk(&Term{Op: OpConst, Sort: FP64, C: a.C})
 	}
 	return c.mk(&Term{Op: OpBToF, Sort: FP64, Args: []*Term{a}})
+}
+
+// Hash is a 128-bit structural hash of t (same structure and variable names =>
+// same hash, across contexts). Used to key the cross-path query cache.
+func (c *Ctx) Hash(t *Term) [2]uint64 {
+	if c.hashes == nil {
+		c.hashes = map[int][2]uint64{}
+	}
+	if h, ok := c.hashes[t.ID]; ok {
+		return h
+	}
+	mix := func(h, v uint64) uint64 {
+		h ^= v + 0x9e3779b97f4a7c15 + (h << 6) + (h >> 2)
+		h *= 0xff51afd7ed558ccd
+		h ^= h >> 33
+		return h
+	}
+	h0 := mix(0x1234567, uint64(t.Op)<<32|uint64(t.Sort.K)<<16|uint64(t.Sort.W))
+	h1 := mix(0x89abcdef, uint64(t.Op)*31+uint64(t.Sort.W))
+	h0 = mix(h0, t.C)
+	h1 = mix(h1, t.C^0x5555)
+	h0 = mix(h0, uint64(t.I1)<<20|uint64(t.I2))
+	h1 = mix(h1, uint64(t.I2)<<20|uint64(t.I1))
+	for k := 0; k < len(t.Name); k++ {
+		h0 = mix(h0, uint64(t.Name[k]))
+		h1 = mix(h1, uint64(t.Name[k])*131)
+	}
+	for _, a := range t.Args {
+		ah := c.Hash(a)
+		h0 = mix(h0, ah[0])
+		h1 = mix(h1, ah[1])
+	}
+	r := [2]uint64{h0, h1}
+	c.hashes[t.ID] = r
+	return r
 }
 
 // Apply builds an application of an uninterpreted function.
